@@ -5,6 +5,8 @@ import json
 
 import fam_encode
 import fam_lookup
+import fam_parse
+import refenc
 
 TRUSTED_BASE = [
     "Coq 8.16.1 kernel (coqc); vm_compute used for finite closures; native_compute not used",
@@ -118,6 +120,76 @@ def c03(ctx):
     # whatever is written must be valid, also when a table is too small for a statement
     out += en_sweep(ctx, ctx.n(300, 4000), fits=False)
     return out
+
+
+# ------------------------------------------------------------------ C04
+def ref_sweep(ctx, n: int, igs, modes, rdf11=False, **kw) -> list:
+    out = []
+    made = 0
+    while made < n:
+        st = fam_parse.ref_stream(ctx, rdf11=rdf11, **kw)
+        if st is None:
+            ctx.report.count("PA/ref-encoder-overflow")
+            continue
+        made += 1
+        delim = ctx.rng.random() < 0.8
+        data = refenc.frames_bytes(st["frames"], delim)
+        bad = fam_parse.check_against_referee(ctx, data, st["events"])
+        if bad:
+            out.append({"family": "REF", "what": bad, "bytes": core_hx(data), "property_violation": None, "signature": {}, "cfg": st["cfg"]})
+            continue
+        ctx.report.evaluations += 1
+        ctx.report.count(f"PA/phys{st['phys']}/{'delim' if delim else 'single'}/v{st['cfg']['version']}")
+        ctx.report.count(f"PA/frames={min(len(st['frames']), 10)}")
+        if len(st["events"]) > 1:
+            ctx.report.nontrivial.add(core_hx(data))
+        exp = fam_encode.norm_event_toks(st["events"]) if False else st["events"]
+        ds = fam_parse.run_parse_case(ctx, data, exp, igs=igs, modes=modes, meta={"cfg": st["cfg"]}, rdf11=rdf11)
+        if made <= 2:
+            ctx.report.sample({"family": "PA", "cfg": st["cfg"], "bytes": core_hx(data)[:200], "events": st["events"][:3], "agreed": not ds})
+        out += ds
+    return out
+
+
+def core_hx(b):
+    import core
+
+    return core.hx(b)
+
+
+@plan(
+    "C04",
+    "PA: valid streams from the independent reference encoder (random eviction victim, IRI split point, explicit/zero ids, early and "
+    "redundant entries, repeated terms or not, frame cuts, empty and metadata-only frames, repeated options rows, delimited or not, "
+    "versions 0-2, table sizes at the boundaries up to 4096), admitted only when the extracted Spec referee says Valid with the intended "
+    "events; parsed by parse_jelly_flat/grouped/to_graph of both integrations and by the model. Non-trivial = more than one event; "
+    "distinct by byte string.",
+)
+def c04(ctx):
+    out = ref_sweep(ctx, ctx.n(400, 8000), igs=("g",), modes=("flat", "grouped", "to_graph"))
+    out += ref_sweep(ctx, ctx.n(250, 5000), igs=("g", "r"), modes=("flat", "grouped", "to_graph"), rdf11=True)
+    return out
+
+
+def replay_pa(ctx, body):
+    import core
+
+    data = core.unhx(body["bytes"])
+    ds = fam_parse.run_parse_case(ctx, data, None, igs=(body.get("ig", "g"),), modes=(body.get("mode", "flat"),), strict=body.get("strict", False))
+    end, evs, err = fam_parse.impl_flat(body.get("ig", "g"), data)
+    print("impl flat:", end, err, evs[:8])
+    print("referee  :", ctx.driver.ask("SB " + body["bytes"])[:400])
+    if body.get("property_violation"):
+        # re-evaluate the recorded expectation
+        exp = body.get("expected")
+        if exp is not None and (end != "E" or evs != exp):
+            return body["property_violation"]["what"]
+    if ds:
+        return "model and implementation disagree"
+    return None
+
+
+REPLAYERS["PA"] = replay_pa
 
 
 def replay_en(ctx, body):
